@@ -938,6 +938,7 @@ fn has_branch_point(o: &Op) -> bool {
             | Op::CvAll { .. }
             | Op::NNotify { .. }
             | Op::Send { .. }
+            | Op::SendBomb { .. }
             | Op::Yield
     )
 }
